@@ -10,7 +10,7 @@ TABLE = {
     "C01": dict(
         technique="differential acceptance against gcc: Hypothesis-driven typed program builder (only gcc -pedantic-errors-valid programs count) + grammar-derived translation units (gcc consulted on rejection) + gcc-checked corner catalogue",
         text="Tier 1: type-correct C99/C11 programs from a typed builder covering all statement kinds, operators, aggregate types, initializers, VLAs, K&R definitions and the documented C11 constructs; each program gcc accepts under -std=c99/-std=c11 -pedantic-errors must parse. Tier 2: translation units derived from Annex A under the typedef-name rule must parse; on rejection gcc decides between generator fault (harness error) and violation. 131 corner snippets are validated by gcc at start. Statistical; constructs outside the two generators (e.g. _Generic) are not covered; nine listed acceptance findings (F9-F18) are replayed separately.",
-        note="Trusted: gcc 12 as validity oracle (first diagnostic only for tier 2), the typed builder never producing double-underscore keywords.",
+        note="Identifiers include words that are keywords only in other dialects or macros of a header (alignas, bool, static_assert, typeof, ...). Trusted: gcc 12 as validity oracle (first diagnostic only for tier 2), the typed builder never producing double-underscore keywords.",
         ref="DESIGN.md section 4, C01",
     ),
     "C02": dict(
@@ -21,7 +21,7 @@ TABLE = {
     ),
     "C03": dict(
         technique="model-based oracle: exhaustive enumeration of declarator derivation sequences x contexts + Hypothesis-generated full declarations, compared with the AST the inside-out declarator rule gives; specifier census",
-        text="Every derivation sequence up to length 3 (quick) / 4 (thorough) over 20 pointer/array/function constructors is placed in 11 declaration and type-name contexts and the parsed chain must equal the derivation order; Hypothesis generates complete declarations (specifier shuffles with repeated qualifiers and function specifiers, multi-declarators, redundant parentheses in named and abstract declarators, initializers with designators, bit-fields, tags re-defined in sibling scopes, look-alike identifier spellings, bodies, K&R and prototype definitions). Complete inside the bound, statistical beyond; _Atomic(T) beyond its simplest form is excluded (known findings F12*).",
+        text="Every derivation sequence up to length 3 (quick) / 4 (thorough) over 20 pointer/array/function constructors is placed in 11 declaration and type-name contexts and the parsed chain must equal the derivation order; every derivation sequence up to length 2 / 3 is also declared under the name of a visible file-scope typedef in 6 contexts that allow it (block object, block typedef followed by a use, for-init, prototype parameter, definition parameter followed by a use, member); Hypothesis generates complete declarations (specifier shuffles with repeated qualifiers and function specifiers, multi-declarators, redundant parentheses in named and abstract declarators, initializers with designators, bit-fields, tags re-defined in sibling scopes, look-alike identifier spellings, bodies, K&R and prototype definitions). Complete inside the bound, statistical beyond; _Atomic(T) beyond its simplest form is excluded (known findings F12*).",
         note="Trusted: the declaration model in vlib/cmodel.py (inside-out renderer and expected-AST builder) and the normalisation of TypeDecl.align / Typename.name.",
         ref="DESIGN.md section 4, C03",
     ),
@@ -33,14 +33,14 @@ TABLE = {
     ),
     "C06": dict(
         technique="exhaustive enumeration of short token sequences and of short literal strings + Hypothesis token-mutation, construct splicing, character-noise and directive-line fuzzing + coverage-guided campaigns (atheris/libFuzzer) with a committed corpus; outcome-class oracle",
-        text="Every token sequence up to length 3 (quick) / 4 and 5 over a reduced alphabet (thorough) after 8 context prefixes is parsed and its outcome classified; every string up to length 4 / 5 over three literal alphabets is parsed in two positions; beyond that, Hypothesis mutates valid programs at token level, splices constructs, generates character noise (incl. characters Python takes for digits or blanks) and # lines from hostile pieces, and 6 (quick) / 20 (thorough) coverage-guided campaigns of 12 000 / 150 000 executions run on the instrumented package, half from an empty corpus and half from the committed one (replayed without the fuzzer as well); every failure bucket is re-decided by the check itself. Complete inside the enumerated bounds, statistical outside them; absence of crashes on longer inputs is not established.",
+        text="Every token sequence up to length 3 (quick) / 4 and 5 over a reduced alphabet (thorough) after 8 context prefixes is parsed and its outcome classified; every string up to length 4 / 5 over three literal alphabets is parsed in two positions; character constants, string literals and header-name look-alikes made of up to 300 (5 000) copies of each of 15 pieces (all escape forms, bad escapes), closed or open, must be answered within the CPU budget; beyond that, Hypothesis mutates valid programs at token level, splices constructs, generates character noise (incl. characters Python takes for digits or blanks) and # lines from hostile pieces, and 6 (quick) / 20 (thorough) coverage-guided campaigns of 12 000 / 150 000 executions run on the instrumented package, half from an empty corpus and half from the committed one (replayed without the fuzzer as well); every failure bucket is re-decided by the check itself. Complete inside the enumerated bounds, statistical outside them; absence of crashes on longer inputs is not established.",
         note="Trusted: the outcome classifier (vlib/oracle.py), a CPU-time alarm as the only non-termination detector, RecursionError tolerated above 100 tokens.",
         ref="DESIGN.md section 4, C06",
     ),
     "C07": dict(
         technique="round-trip oracle (parse . generate . parse = parse, regenerate = identity) over enumerated small constructs, Hypothesis-generated translation units, corpus, accepted token-mutants and accepted inputs of coverage-guided campaigns (atheris/libFuzzer, parser and generator instrumented), both generator configurations",
         text="Every 2-operator expression tree, every derivation sequence up to length 2 (quick) / 3 (thorough) in 11 contexts, every small statement tree and switch body, Hypothesis-generated whole translation units, the preprocessed repository corpus, the corner catalogue, accepted token-mutants, literals / identifiers / lists whose size is close to 127 ... 1023 (31 ... 4095) with escapes on every offset around the limit, the committed fuzz corpus and the accepted inputs of 4 (quick) / 20 (thorough) coverage-guided campaigns (round trip inside the fuzz target, buckets re-decided by the check) are round-tripped with reduce_parentheses off and on. Complete inside the enumerated bound, statistical beyond; listed generator findings (F21, F25a, F12*) are excluded by construction or by an AST predicate on the input.",
-        note="Trusted: astdump.dump as structural equality; programs the parser rejects carry no claim.",
+        note="Generated initializers include the empty brace list at every depth. Trusted: astdump.dump as structural equality; programs the parser rejects carry no claim.",
         ref="DESIGN.md section 4, C07",
     ),
     "C08": dict(
@@ -64,7 +64,7 @@ TABLE = {
     "C14": dict(
         technique="exhaustive sentinel-instance sweep over the classes of _c_ast.cfg (read by an independent cfg parser) + instrumented visitors and show() on Hypothesis-generated and corpus ASTs against the preorder computed from the cfg",
         text="All node classes x all subsets of absent children x sequence shapes are enumerated completely and compared with the cfg (signature, slots, attr_names, children(), iteration); traversal (generic, selective with random class subsets, reused visitors, visitor class hierarchies, handlers attached to the instance or served by __getattr__, reuse after a traversal abandoned by an exception, handlers that remove their node from the sequence being traversed, an overridden visit()) and show() line counts are checked on generated and corpus ASTs against a preorder derived from the cfg, not from children().",
-        note="Trusted: the 10-line cfg reader; show() line rule is not asserted for ASTs with node-valued attributes (known finding F29).",
+        note="A quarter of the generated programs get backslashes appended to pragma lines. Trusted: the 10-line cfg reader; show() line rule is not asserted for ASTs with node-valued attributes (known finding F29).",
         ref="DESIGN.md section 4, C14",
     ),
     "C15": dict(
@@ -75,7 +75,7 @@ TABLE = {
     ),
     "C19": dict(
         technique="exhaustive sweep over the shipped header files x dialects x argument forms through parse_file(use_cpp=True), differential oracle against a by-hand cpp + CParser pipeline, generated declarations using every typedef name; Hypothesis-chosen header subsets and orders",
-        text="All header files found under utils/fake_libc_include at run time x 4 dialects (list form) and the string form (include directory reached through a scratch symlink whose name contains a blank and '=') are preprocessed and parsed; results are compared with the by-hand pipeline (coordinates included, also for use_cpp=False) and every typedef name is used in generated declarations; including files that make cpp warn while it succeeds; 6 / 60 rounds of 8 parse_file calls overlapping in time against the same calls made alone. The single-header space is enumerated completely; subsets and orders are sampled.",
+        text="All header files found under utils/fake_libc_include at run time x 4 dialects (list form), one of two further list forms per header (-I and the directory as separate elements; a mixed list with -D/-U pairs and a non-existent extra directory) and the string form (include directory reached through a scratch symlink whose name contains a blank and '=') are preprocessed and parsed; results are compared with the by-hand pipeline (coordinates included, also for use_cpp=False) and every typedef name is used in generated declarations; including files that make cpp warn while it succeeds; 6 / 60 rounds of 8 parse_file calls overlapping in time against the same calls made alone. The single-header space is enumerated completely; subsets and orders are sampled.",
         note="Trusted: the system cpp; in the quick tier the deep comparisons run for -std=c11 and the string form only.",
         ref="DESIGN.md section 4, C19",
     ),
@@ -88,18 +88,18 @@ TABLE = {
     "C18": dict(
         technique="exhaustive single-bracket mutation and non-token injection of Hypothesis-generated and corpus programs (incl. every offset of every line directive) + exhaustive bracket strings in three contexts + coverage-guided campaigns (atheris/libFuzzer) over token sequences; bracket-matcher / non-token oracle",
         text="Every single-bracket deletion, duplication and kind swap and every injection of non-token text at bracket positions and declaration/statement boundaries (every token boundary in the thorough tier) of accepted programs must be rejected with ParseError; all bracket strings up to length 6 (quick) / 8 (thorough) in expression, declarator and statement contexts that an independent matcher finds unbalanced must be rejected; non-token text and single brackets at every offset of every line directive of cpp-style and generated programs must be rejected; characters no C token contains glued to the front, inside and end of every non-literal token, single-bracket mutants of the second of two identical copies placed behind the same linemarker, and all mutants of four programs with GNU statement expressions must be rejected; 4 (quick) / 20 (thorough) coverage-guided campaigns and the committed fuzz corpus check that token sequences with a non-token or non-nesting brackets are rejected. Complete per base program and inside the string bound; base programs are sampled.",
-        note="Trusted: the 10-line bracket matcher and the reference tokenizer used to split corpus files.",
+        note="Every fifth rejected text and every text with a non-ASCII character is also read from a file by parse_file(use_cpp=False). Trusted: the 10-line bracket matcher and the reference tokenizer used to split corpus files.",
         ref="DESIGN.md section 4, C18",
     ),
     "C12": dict(
         technique="Hypothesis RuleBasedStateMachine over one long-lived CParser / CGenerator pair / CLexer, differential oracle after every call against a private copy of the package created for that one call (no module- or class-level state shared with the instance under test), id-disjointness of returned ASTs",
-        text="Histories of 20-40 calls (valid generated programs, programs truncated at arbitrary tokens incl. right after a #pragma token, a pool of clashing programs, texts identical up to one hole, token soup, repeated texts, code generation from any earlier AST, re-use of a bare lexer) are run on reused instances; every outcome (AST with coordinates or exception type and message, generated text, token stream) must equal that of a private copy of the package made for the call and ASTs must share no objects. Statistical over histories; shrinking works on the rule sequence.",
+        text="Histories of 20-40 calls (valid generated programs, programs truncated at arbitrary tokens incl. right after a #pragma token, a pool of clashing programs, texts identical up to one hole, token soup, repeated texts, bursts of one text failing deep inside a nesting followed by a witness text, code generation from any earlier AST, re-use of a bare lexer) are run on reused instances; every outcome (AST with coordinates or exception type and message, generated text, token stream) must equal that of a private copy of the package made for the call and ASTs must share no objects. Statistical over histories; shrinking works on the rule sequence.",
         note="Trusted: vlib/pristine.py (a fresh execution of the package sources under a private module name per reference; a fresh in-process instance is compared with it on every fourth call); astdump.dump with coordinates.",
         ref="DESIGN.md section 4, C12",
     ),
     "C13": dict(
         technique="schedule-owning harness: a lexer subclass injected through lexer= (and yielding CGenerator / NodeVisitor subclasses) parks each thread at every token()/visit() so that interleavings are values; exhaustive interleavings of short clashing program pairs, Hypothesis-generated schedules for 2-4 longer programs, free-running threads with minimal switch interval; oracle = results of the same calls run alone, computed by a private copy of the package per call and, for the pool programs, by a forked process without parsing history",
-        text="All interleavings at token granularity of 6 (quick) / 8 (thorough) clashing program pairs (incl. directives without file name; every program has its own file name) are enumerated; Hypothesis draws schedules for 2-4 parsers, generators and visitor subclasses on pool programs (two of them far deeper than the recursion limit) and generated programs; 4 and 8 free-running threads repeat parse+generate+parse_file loops; 4 / 24 fresh interpreters have their first parser objects created by 12 threads together; generator instances of four classes are used in drawn orders. Every result must equal the solo result. Complete for the enumerated pairs, statistical beyond; races inside a single method are only reachable by the free-running part.",
+        text="All interleavings at token granularity of 7 (quick) / 9 (thorough) clashing program pairs (one of them failing at a stray '}' right after a declarator) (incl. directives without file name; every program has its own file name) are enumerated; Hypothesis draws schedules for 2-4 parsers, generators and visitor subclasses on pool programs (two of them far deeper than the recursion limit) and generated programs; 4 and 8 free-running threads repeat parse+generate+parse_file loops; 4 / 24 fresh interpreters have their first parser objects created by 12 threads together; generator instances of four classes are used in drawn orders. Every result must equal the solo result. Complete for the enumerated pairs, statistical beyond; races inside a single method are only reachable by the free-running part.",
         note="Trusted: the controller (raw locks only; a stall of 8 s that repeats with an 80 s limit is reported as a difference, never ignored); vlib/pristine.py for the references.",
         ref="DESIGN.md section 4, C13",
     ),
@@ -116,8 +116,8 @@ TABLE = {
         ref="DESIGN.md section 4, C16",
     ),
     "C04": dict(
-        technique="history generation against a reference scope model: exhaustive enumeration of declaration-event sequences over a 26-event alphabet with probes after every event + Hypothesis-generated longer histories (shrinking the event list)",
-        text="All event sequences up to length 3 and half of length 4 (quick) / all up to length 4 and a seventh of length 5 (thorough) over typedef/object/function/enumerator/tag/member/prototype-parameter/label/function (plain, name as parameter, name as the function's own name)/block events, each in 3-8 spellings, for two names are rendered with four kinds of probe statements after every event for every name; a reference scope stack written from C99 6.2.1 predicts the reading (declaration/cast/type operand vs expression) of each probe. Complete inside the bound; events that trigger the listed scoping findings (F13-F18, F9a) are excluded and replayed separately.",
+        technique="history generation against a reference scope model: exhaustive enumeration of declaration-event sequences over a 27-event alphabet with probes after every event + Hypothesis-generated longer histories (shrinking the event list)",
+        text="All event sequences up to length 3 and half of length 4 (quick) / all up to length 4 and a seventh of length 5 (thorough) over typedef/object/function/enumerator/tag/member/prototype-parameter/label/function (plain, name as parameter, name as the function's own name)/brace-construct (initializer lists, compound literals, member lists inside expressions: 16 forms)/block events, each in 3-8 spellings, for two names are rendered with four kinds of probe statements after every event for every name; a reference scope stack written from C99 6.2.1 predicts the reading (declaration/cast/type operand vs expression) of each probe. Complete inside the bound; events that trigger the listed scoping findings (F13-F18, F9a) are excluded and replayed separately.",
         note="Trusted: the reference scope model in vlib/props/c04.py; histories it deems invalid C carry no claim.",
         ref="DESIGN.md section 4, C04",
     ),
